@@ -159,7 +159,9 @@ class C20(core.Check):
                 res.fail(**{'class': 'corr/' + kind.replace(' ', '-'), 'input': line[:1500], 'observed_model': out[:600], 'expected_impl': py[:600]})
             res.sample({'request': line[:200], 'model': out[:200]})
 
-    def real_spacing(self, cs):
+    def real_spacing(self, cs, where='traded'):
+        """does research.backtest accept a session in which the candle set of the traded symbol / of a second, watch-only
+        symbol / of a second traded symbol starts with the rows `cs`?"""
         from jesse.strategies import Strategy
 
         class S(Strategy):
@@ -167,8 +169,15 @@ class C20(core.Check):
             def go_long(self): pass
             def should_cancel_entry(self): return False
         import numpy as np
+        good = np.array([[10 * M + i * M, 1, 1, 1, 1, 1] for i in range(max(len(cs), 3))], dtype=float)
+        bad = np.array(cs, dtype=float)
         try:
-            bt.run(bt.config(), [('BTC-USDT', '1m', S)], [], {'BTC-USDT': np.array(cs, dtype=float)})
+            if where == 'traded':
+                bt.run(bt.config(), [('BTC-USDT', '1m', S)], [], {'BTC-USDT': bad})
+            elif where == 'watched':
+                bt.run(bt.config(), [('BTC-USDT', '1m', S)], [('ETH-USDT', '1m')], {'BTC-USDT': good, 'ETH-USDT': bad})
+            else:
+                bt.run(bt.config(), [('BTC-USDT', '1m', S), ('ETH-USDT', '1m', S)], [], {'BTC-USDT': good, 'ETH-USDT': bad})
             return True
         except ValueError:
             return False
@@ -279,11 +288,13 @@ class C20(core.Check):
             elif len(res.samples) < 3:
                 res.sample({'sequence_ts': [c[0] // M for c in seq], 'stored_ts': [int(x) // M for x in tss] if seq else []})
         # spacing
-        for d in (2 * M, 0, -M, 59_999):
+        for d in (2 * M, 0, -M, 59_999, 5 * M):
             cs = [[10 * M, 1, 1, 1, 1, 1], [10 * M + d, 1, 1, 1, 1, 1], [10 * M + d + M, 1, 1, 1, 1, 1]]
-            res.count('spacing')
-            if self.real_spacing(cs):
-                res.fail(**{'class': 'spacing/accepted', 'input': {'candles': cs}, 'observed': 'accepted'})
+            for where in ('traded', 'watched', 'second-traded'):
+                res.count('spacing:' + where)
+                if self.real_spacing(cs, where):
+                    res.fail(**{'class': 'spacing/accepted', 'input': {'candles': cs, 'candle_set_of': where}, 'observed': 'accepted',
+                                'params': {'candle_set_of': where}})
 
     def replay(self, doc):
         print(doc['failure'])
